@@ -72,6 +72,7 @@ public:
 
     bool checkForImportCycles(const ImportSourcePtr &importSource, const History &history, const HistoryEpochPtr &h, const std::string &action);
     bool checkUnitsForCycles(const UnitsPtr &units, History &history);
+    bool checkUnitsForCycles(const UnitsPtr &units, History &history, std::vector<UnitsPtr> &unitsOnPath);
     bool checkComponentForCycles(const ComponentPtr &component, History &history);
 
     /**
@@ -145,18 +146,36 @@ std::string Importer::ImporterImpl::resolvingUrl(const ImportSourcePtr &importSo
 
 bool Importer::ImporterImpl::checkUnitsForCycles(const UnitsPtr &units, History &history)
 {
+    std::vector<UnitsPtr> unitsOnPath;
+
+    return checkUnitsForCycles(units, history, unitsOnPath);
+}
+
+bool Importer::ImporterImpl::checkUnitsForCycles(const UnitsPtr &units, History &history, std::vector<UnitsPtr> &unitsOnPath)
+{
     // Even if these units are not imported, they might have imported children.
     if (!units->isImport()) {
+        if (std::find(unitsOnPath.begin(), unitsOnPath.end(), units) != unitsOnPath.end()) {
+            // These units are defined in terms of themselves.
+            auto issue = Issue::IssueImpl::create();
+            issue->mPimpl->setDescription("Cyclic units exist: units '" + units->name() + "' are defined in terms of themselves.");
+            issue->mPimpl->mItem->mPimpl->setUnits(units);
+            issue->mPimpl->setReferenceRule(Issue::ReferenceRule::UNIT_UNITS_CIRCULAR_REFERENCE);
+            addIssue(issue);
+            return true;
+        }
+        unitsOnPath.push_back(units);
         for (size_t index = 0; index < units->unitCount(); ++index) {
             std::string ref = units->unitAttributeReference(index);
             // If the child units are imported, check them too.
             auto model = owningModel(units);
             if (model->hasUnits(ref)) {
-                if (checkUnitsForCycles(model->units(ref), history)) {
+                if (checkUnitsForCycles(model->units(ref), history, unitsOnPath)) {
                     return true;
                 }
             }
         }
+        unitsOnPath.pop_back();
         return false;
     }
 
@@ -191,7 +210,7 @@ bool Importer::ImporterImpl::checkUnitsForCycles(const UnitsPtr &units, History 
         return true;
     }
 
-    return checkUnitsForCycles(importedUnits, history);
+    return checkUnitsForCycles(importedUnits, history, unitsOnPath);
 }
 
 bool Importer::ImporterImpl::checkComponentForCycles(const ComponentPtr &component, History &history)
